@@ -1260,8 +1260,56 @@ func ruleNonDet(c *Ctx) {
 // ---------------------------------------------------------------------------
 // IOLAYER
 
+// checkInputKindBlind: what a command reads does not depend on what kind of file its input is: no function of the
+// repository asks an input for its size or position (Stat, Seek, ReadAt) or asserts a reader to be seekable / an *os.File.
+// A regular file, a pipe, a named pipe and a here-document all answer Read alike; they differ in exactly those calls (a
+// pipe has size 0 and cannot seek; a regular file inherited as standard input may stand at an offset).
+func (c *Ctx) checkInputKindBlind() {
+	n := 0
+	for _, fn := range c.srcFuncs() {
+		name := fname(fn)
+		allInstrs(fn, func(in ssa.Instruction) {
+			switch x := in.(type) {
+			case ssa.CallInstruction:
+				cc := x.Common()
+				m := ""
+				if cc.IsInvoke() {
+					m = cc.Method.Name()
+				} else if callee := staticCallee(cc); callee != nil && callee.Signature.Recv() != nil {
+					if rt := typeName(callee.Signature.Recv().Type()); rt == "os.File" || strings.HasPrefix(rt, "io.") || strings.HasPrefix(rt, "bufio.") || strings.HasPrefix(rt, "bytes.Reader") || strings.HasPrefix(rt, "strings.Reader") {
+						m = callee.Name()
+					}
+				}
+				n++
+				switch m {
+				case "Seek", "Stat", "ReadAt", "Size":
+					recv := ""
+					if cc.IsInvoke() {
+						recv = typeName(cc.Value.Type())
+					} else if len(cc.Args) > 0 {
+						recv = typeName(cc.Args[0].Type())
+					}
+					if recv == "os.File" || strings.HasPrefix(recv, "io.") {
+						c.site(1)
+						c.bad(name+"|"+m, c.pos(x.Pos()), name, fmt.Sprintf("%s is called on an input (%s): how much is read, or from where, then depends on whether the input is a regular file, a pipe or an inherited descriptor standing at an offset, so `crd x FILE`, `crd x < FILE` and `cat FILE | crd x` can differ", m, recv))
+					}
+				}
+			case *ssa.TypeAssert:
+				at := typeName(x.AssertedType)
+				if at == "io.Seeker" || at == "io.ReadSeeker" || at == "io.ReaderAt" || at == "os.File" || at == "io.ReadSeekCloser" {
+					c.site(1)
+					c.bad(name+"|assert|"+at, c.pos(x.Pos()), name, fmt.Sprintf("an input is asserted to be %s: the command then treats a regular file differently from a pipe", at))
+				}
+			}
+		})
+	}
+	c.site(1)
+	c.ok("input-kind|summary", "", "", fmt.Sprintf("%d calls examined: no input is asked for its size or position, none is asserted to be seekable or a file", n))
+}
+
 func ruleIOLayer(c *Ctx) {
 	c.checkNoSingleRead()
+	c.checkInputKindBlind()
 	allowed := map[string]map[string]string{
 		"os.Stdin":    {"cmd.readFileOrStdin": "the one place that selects stdin"},
 		"os.Stdout":   {"cmd.getOutput": "the one place that selects stdout"},
